@@ -608,6 +608,18 @@ def writers():
     c2 = b.establish("p2", "in")
     b.write("p1", 1, [1]).write("p2", 1, [2]).rclose(c1).write("p1", 1, [3]).write("p2", 1, [4])
     out.append(b.tag("writer").build())
+    # equal bodies, one after the other, are written each time
+    for d in DIRS:
+        p = peer(hold=90, estWrites=[[1], [1], [], []], handlerWrites={"1": [[2, 2], [2, 2]], "2": [[], []]})
+        b = Sb("wr-repeat-%s" % d, [p])
+        b.start()
+        c = b.establish(direction=d)
+        big = list(range(200)) * 20 + list(range(77))
+        for body in ([7], [7], [7], [], [], big, big, [7], [0, 0, 0, 0], [0, 0, 0, 0]):
+            b.write("p1", 1, body)
+        b.upd(c).upd(c).write("p1", 1, [2, 2]).write("p1", 1, [])
+        b.adv(1)
+        out.append(b.tag("writer", "repeat").build())
     # what one peer's connection received (garbage included) never shows up in what corebgp writes to another
     garbage = {"http": [ord(x) for x in "GET / HTTP/1.1\r\nHost: x\r\n\r\n"], "zeros": [0] * 19, "marker": [0x11] * 16 + [0, 19, 4],
                "biglen": [0xFF] * 16 + [0xFF, 0xFF, 2] + [0x22] * 60, "upd": update([0x33] * 100)}
@@ -1464,6 +1476,38 @@ def gated():
         rel(b, "Update", 2)
         b.adv(1)
         out.append(b.tag("stop", "gate").build())
+        # (3b)/(4b) the held callback takes seconds (virtual time passes) while the stop waits for it: the stop
+        # still returns only after everything is torn down; a callback that writes after the stop request does
+        # not block
+        if how != "delete+add":
+            for d in DIRS:
+                b = Sb("gate-slow-onest-%s-%s" % (how, d), [peer(gates=["OnEstablished#1"], estWrites=[[1, 2], [3]])])
+                b.start()
+                c = b.to_state("openConfirm", direction=d)
+                b.ka(c)
+                stop(b)
+                b.adv(3)
+                rel(b, "OnEstablished", 1)
+                b.adv(1)
+                out.append(b.tag("stop", "gate", "slow").build())
+                b = Sb("gate-slow-update-%s-%s" % (how, d), [peer(gates=["Update#1"], handlerWrites={"1": [[4, 5], []]})])
+                b.start()
+                c = b.establish(direction=d)
+                b.upd(c, [9])
+                stop(b)
+                b.adv(2).adv(2)
+                rel(b, "Update", 1)
+                b.adv(1)
+                out.append(b.tag("stop", "gate", "slow").build())
+                b = Sb("gate-slow-onopen-%s-%s" % (how, d), [peer(gates=["OnOpenMessage#1"])])
+                b.start()
+                c = b.to_state("openSent", direction=d)
+                b.open(c)
+                stop(b)
+                b.adv(5)
+                rel(b, "OnOpenMessage", 1)
+                b.adv(1)
+                out.append(b.tag("stop", "gate", "slow").build())
         # (5) held in OnClose while the stop is in progress; the release races with new API calls and a new
         # inbound connection (nothing that needs the server lock may be issued while the stop holds it: the
         # bubble cannot wait for a goroutine blocked on a mutex)
@@ -2266,6 +2310,16 @@ def backpressure():
                     c2 = b.to_state("openConfirm", direction="in" if d == "out" else "out", rid="10.0.0.2")
                 b.adv(wait).unstall(c).adv(70)
                 out.append(b.tag("stall", "notif").build())
+    # a stop request waits for the blocked Cease for as long as it takes (virtual seconds pass)
+    for d in DIRS:
+        for stop in ("deletePeer", "close"):
+            b = Sb("bp-slowstop-%s-%s" % (stop, d), [peer(hold=90)])
+            b.start()
+            c = b.establish(direction=d)
+            b.stall(c)
+            b.add(stop, peer="p1" if stop == "deletePeer" else "")
+            b.adv(3).adv(3).unstall(c).adv(1)
+            out.append(b.tag("stall", "stop", "slow").build())
     # the OPEN itself cannot be written
     for d in DIRS:
         b = Sb("bp-open-%s" % d, [peer(hold=9)])
